@@ -349,6 +349,22 @@ pub fn alphabet(r: &mut Rng, bits: u32, max_card: usize) -> Vec<u128> {
             vals.push(x);
         }
     }
+    // cast-alias twins: two symbols that agree modulo 2^8 / 2^16 / 2^32 / 2^64 (whatever a narrowing `as` in
+    // the code under test would keep), for the element types wide enough to hold them
+    if bits > 8 && vals.len() >= 2 && r.chance(1, 4) {
+        let widths: Vec<u32> = [8u32, 16, 32, 64].iter().copied().filter(|&w| w < bits).collect();
+        let w = *r.pick(&widths);
+        let x = vals[r.below(vals.len() as u64) as usize];
+        let twin = (x & ((1u128 << w) - 1)) + ((1 + r.below(3) as u128) << w);
+        if twin <= tmax && !vals.contains(&twin) {
+            let k = r.below(vals.len() as u64) as usize;
+            if vals[k] != x {
+                vals[k] = twin;
+            } else {
+                vals.push(twin);
+            }
+        }
+    }
     // shuffle so that frequency shapes do not correlate with value
     for i in (1..vals.len()).rev() {
         let j = r.below(i as u64 + 1) as usize;
@@ -515,6 +531,40 @@ pub fn tree_queries(r: &mut Rng, c: &mut Case, v: &[u128], bits: u32, budget: us
                 }
             }
             _ => c.l(format!("q 0 {}", op)),
+        }
+    }
+    // cast-alias twins among the occurring symbols: queried back to back (x, y, x), as a cache keyed by a
+    // narrowed symbol would need
+    {
+        let mut pairs = 0;
+        'tw: for (i, &x) in distinct.iter().enumerate() {
+            for &y in distinct.iter().skip(i + 1) {
+                let d = y - x;
+                if x != y && [8u32, 16, 32, 64].iter().any(|&w| w < 128 && d % (1u128 << w) == 0) {
+                    for &op in ops {
+                        match op {
+                            "select" | "select_unchecked" => {
+                                for z in [x, y, x] {
+                                    c.l(format!("q 0 {} {} 0", op, z));
+                                }
+                            }
+                            "rank" | "rank_unchecked" | "rank_prefetch" | "rank_prefetch_unchecked" => {
+                                for z in [x, y, x] {
+                                    c.l(format!("q 0 {} {} {}", op, z, n));
+                                }
+                            }
+                            _ => {}
+                        }
+                    }
+                    pairs += 1;
+                    if pairs >= 4 {
+                        break 'tw;
+                    }
+                }
+            }
+            if i > 300 {
+                break;
+            }
         }
     }
     // larger alphabets: a sweep over (a sample of) *all* symbols — the rare ones with their long codes too —
